@@ -211,9 +211,7 @@ K("normalized_distance_total", ["C20", "C11"], DSF,
 K("manhattan_self_zero_symmetric", ["C11"], DSF,
   "Manhattan built_distance(p,p) = 0 and is argument-symmetric bit-for-bit (real code)", "dim 2, all finite f32",
   site="Manhattan::built_distance", timeout=600)
-K("cosine_range", ["C11", "C20"], DSF,
-  "Cosine built_distance lies in [0,1] for finite norms and non-NaN dot, and is 0 when the product of norms is <= epsilon",
-  "all f32 norms/dot (dot_product uninterpreted)", site="Cosine::built_distance", timeout=300)
+# cosine_range (Cosine::built_distance in [0,1]): one f32 product and one division of symbolic floats -- no CBMC verdict in 300 s; not registered.
 
 _SEARCH_BOUNDS = "forests: 1 tree from {bucket; split(bucket,bucket); split(item,bucket)} + (split(bucket,item) with a second single-bucket tree); thorough adds the other depth-1 shapes and one depth-2 shape, <= 3 (thorough 4) items over a 16-id universe; count 0..=6; candidate filter absent or any 16-bit set; per-item distances = uninterpreted f32 function of the id (any values incl. NaN/inf/ties); per-split margins arbitrary f32"
 MIRSYM("exact_search", ["C02"],
@@ -232,6 +230,11 @@ MIRSYM("change_metric_step", ["C18", "C07"],
        "prepare_changing_distance over a constant-shape database: every item key kept and re-encoded as a valid leaf of the new metric at the declared dimension; forest and metadata of the index removed; pending marks and every entry of other indexes untouched; same metric => nothing written",
        "database: index 7 = {metadata, version, 1 updated mark, 2 tree nodes, items 1 and u32::MAX} + neighbours 6 and 8; dimension 1..=130 symbolic; codec transitions f32->f32, f32->quantised, quantised->f32, quantised->quantised, identity; vectors abstracted to (codec, logical length)",
        _lazy("e2_metric"), site="Writer::prepare_changing_distance")
+
+MIRSYM("distance_kernels_structure", ["C11"],
+       "for every length n the value computed by spaces::simple::{dot_product, euclidean_distance} on each dispatch path (AVX+FMA, SSE, scalar) equals sum_i a_i*b_i resp. sum_i (a_i-b_i)^2 modulo re-association of the sum: every index used exactly once, right pairing, right remainder, no out-of-bounds read",
+       "n in 1..=40 and around every multiple of 16/32 up to 300 (thorough: all n in 1..=300); element values symbolic; float + as real addition, - and * uninterpreted (multiplication commutative); CPU features symbolic",
+       _lazy("e2_simd"), site="spaces::simple / simple_sse / simple_avx")
 
 PROPS = {}
 
@@ -396,6 +399,18 @@ P("C20", "Degenerate data never breaks a build or a search",
   bounds={"make_tree": "|S| <= 2 (thorough 3)", "search": "as C03"},
   outside_claim=["two_means / create_split internals", "split_imbalance float arithmetic (no solver verdict)", "wall-clock bounds", "real RNGs", "whole builds on degenerate datasets"],
   assumptions=["fair RNG within the random fallback"])
+P("C11", "Reported distances equal the metric's definition for every vector shape",
+  "symbolic execution of the rustc MIR of the SSE/AVX kernels and their dispatchers with lane-wise intrinsic models, float addition abstracted to real addition and subtraction/multiplication to uninterpreted functions; z3 decides kernel = definition for each length; Kani lemmas for the per-metric formulas",
+  "Structural equivalence (which indices are combined with which, on which dispatch path) is decided for every listed length; the formula lemmas are decided bit-precisely. No numeric error bound is derived by the solver: 'within the rounding error of single-precision summation' rests on the standard result about re-associated sums.",
+  level_note="Trusted: rustc MIR, z3, Intel's documented lane semantics of the intrinsics used (loadu, add, sub, mul, fmadd, movehl, shuffle, add_ss, cvtss, extractf128, castps256_ps128), real-arithmetic abstraction of f32 addition, commutativity of multiplication, powi(x,2) = x*x; the scalar `*_non_optimized` loops are taken as the definition. NEON is outside the claim; memory alignment is not modelled (unaligned loads are byte-exact).",
+  stubs_and_models=["lane-wise intrinsic models (lib/e2_simd.py)", "dot_product as uninterpreted function in the Kani ordering lemmas"],
+  functions_encoded=["spaces::simple::dot_product", "spaces::simple::euclidean_distance", "simple_sse::dot_similarity_sse", "simple_sse::euclid_similarity_sse",
+                     "simple_avx::dot_similarity_avx", "simple_avx::euclid_similarity_avx", "hsum128_ps_sse", "hsum256_ps_avx",
+                     "Manhattan::built_distance", "Cosine::built_distance", "Distance::normalized_distance (x7)"],
+  bounds={"length": "1..=300", "formula lemmas": "dim 2"},
+  outside_claim=["numeric error bounds", "NEON", "byte offsets/alignment", "Euclidean symmetry/self-distance (float products)"],
+  assumptions=["IEEE multiplication commutes"])
+claim("C11")
 claim("C20")
 claim("C18")
 claim("C10")
